@@ -236,7 +236,9 @@ def apply_op(op, schema, prs, rng):
             elif op == "example":
                 # a strategy only reads the schema when an example is drawn
                 if rng.random() < 0.5:
-                    schema.example(size=rng.choice([0, 1, 2]))
+                    # one derandomised draw with a bounded effort (`.example()` itself may search for minutes)
+                    from .c13 import draws_of
+                    draws_of(schema.strategy(size=rng.choice([0, 1, 2])), 1)
             elif op == "hash_checks":
                 for col in schema.columns.values():
                     for chk in col.checks:
